@@ -80,6 +80,7 @@ macro_rules! dispatch {
             "C13" => $f(&props::c13::C13 $(, $arg)*),
             "C19" => $f(&props::c19::C19 $(, $arg)*),
             "C12" => $f(&props::c12::C12 $(, $arg)*),
+            "C10" => $f(&props::c10::C10 $(, $arg)*),
             other => {
                 eprintln!("unknown property {}", other);
                 3
